@@ -514,6 +514,23 @@ def run(tier, t0):
         res.error('C14.6', 'could not consult C08.5: %r' % (e,))
     res.rule('C14.6', n6, floor=8, note='modules / unloaded modules / system info / handles are the streams\' values; per-frame unloaded offsets')
 
+    # C14.7 the process id of the Linux status stream: only a number that the stream carries.  The conversion
+    # From<MinidumpLinuxProcStatus> must not invent one when the `Pid` line is missing or unparsable.
+    res.rule('C14.7', 0, floor=1, note='LinuxProcStatus.pid has no made-up default: a status stream without a usable Pid line gives no process id')
+    cf = [f for f in mp.fns if re.search(r'LinuxProcStatus as std::convert::From<.*MinidumpLinuxProcStatus', f.path) and f.path.endswith('::from')]
+    if len(cf) != 1:
+        res.error('C14.7', 'From<MinidumpLinuxProcStatus> for LinuxProcStatus not found')
+    else:
+        f7 = cf[0]
+        for b in sorted(f7.reach):
+            for s_ in f7.blocks[b]['s']:
+                if s_['k'] == 'assign' and s_['rv']['k'] == 'agg' and s_['rv'].get('ak') == 'adt' and s_['rv']['adt'].endswith('LinuxProcStatus'):
+                    res.rule('C14.7', 1)
+                    vals = dict(zip(s_['rv']['fields'], s_['rv']['xs']))
+                    tr = f7.expand(f7.operand_tree(vals['pid']))
+                    defaults = [n for n in walk(tr) if isinstance(n, tuple) and n and n[0] == 'call' and re.search(r'Option::(map_or|unwrap_or|unwrap_or_default)$|Result::(unwrap_or|unwrap_or_default)$', n[1])]
+                    if defaults:
+                        res.violation('C14.7', 'C14.7|pid-default', f7, s_.get('line'), 'the pid of a Linux status stream falls back to a constant (%s): a stream without a `Pid` line, or with an unparsable one, reports process id 0 as if the dump said so' % defaults[0][1].split('::')[-1])
     res.assumptions += [
         'Not decided: the mapping exception code / flags / parameters -> CrashReason (CrashReason::from_exception): hundreds of enumerators per OS, value-level',
         'Not decided: that MinidumpThread::context / MinidumpException::context decode the right bytes (C02 covers the field-level reading)',
